@@ -69,13 +69,16 @@ CHILD_ARN = cp.ARN + "child"
 EMPTY_SAMPLE = {"record": None, "queued": 0, "held": 0, "hist": [], "hist_first": None, "hist_last": None}
 
 
-def run_many(definition, inputs, worker, tmpdir, chooser=None, mtype="STANDARD", max_steps=4000, child=None):
+def run_many(definition, inputs, worker, tmpdir, chooser=None, mtype="STANDARD", max_steps=4000, child=None, logging=None):
     """Start len(inputs) executions of one machine in a fresh world and run to quiescence.
     child: the definition of the machine that Task states of `definition` launch as child executions (registered as CHILD_ARN);
     the executions that the engine starts itself are added to info.arns when their start event is published."""
     w = sim.World(tmpdir)
     w.clock.t += 33 / 64.0        # a start time with a sub-millisecond fraction (exact in binary)
-    w.register(cp.ARN, definition, mtype=mtype)
+    if logging is not None:       # a machine created with a loggingConfiguration: history events are also logged (redacted unless includeExecutionData)
+        w.register(cp.ARN, definition, mtype=mtype, loggingConfiguration=logging)
+    else:
+        w.register(cp.ARN, definition, mtype=mtype)
     if child is not None:
         w.register(CHILD_ARN, child)
     names = ["x%d" % i for i in range(len(inputs))]
@@ -148,6 +151,7 @@ def run_many(definition, inputs, worker, tmpdir, chooser=None, mtype="STANDARD",
         for a in arns:
             smp.setdefault(a, dict(EMPTY_SAMPLE))
     info.child = child
+    info.logging = logging
     info.stale_timers = [[str(k), nm, round(dt, 3)] for k, nm, dt in stale]
     info.world = w
     info.status = status or "max_steps"
@@ -228,8 +232,9 @@ def gen_runs(rng, tmpdir, n, profile, thorough=False, mtype="STANDARD"):
             k = rng.choice([1, 1, 2])
         elif profile == "fanout_fail":
             g = cp.Gen(rng, fanout=True, max_depth=1)
+            g.long_form = True
             definition = g.machine()
-            worker = cp.Worker(rng.randrange(10 ** 6), failures=0.3)
+            worker = cp.Worker(rng.randrange(10 ** 6), failures=0.3, hangs=0.1)
             k = 1
         elif profile == "children":
             definition, child = children_machines(rng)
@@ -237,8 +242,9 @@ def gen_runs(rng, tmpdir, n, profile, thorough=False, mtype="STANDARD"):
             k = rng.choice([1, 1, 2])
         else:       # fanout_fail_nested
             g = cp.Gen(rng, fanout=True, max_depth=3 if thorough else 2)
+            g.long_form = True
             definition = g.machine()
-            worker = cp.Worker(rng.randrange(10 ** 6), failures=0.25)
+            worker = cp.Worker(rng.randrange(10 ** 6), failures=0.25, hangs=0.05)
             k = rng.choice([1, 1, 2])
         if profile != "children":
             child = None
@@ -251,7 +257,9 @@ def gen_runs(rng, tmpdir, n, profile, thorough=False, mtype="STANDARD"):
         sched = rng.choice(["canonical", "random", "random"])
         sseed = rng.randrange(10 ** 9)
         chooser = None if sched == "canonical" else random_chooser(random.Random(sseed))
-        info = run_many(definition, inputs, worker, tmpdir, chooser=chooser, mtype=mtype, child=child)
+        logging = rng.choice([None, None, None, {"level": "ALL", "destinations": [{}]}, {"level": "ERROR", "destinations": [{}], "includeExecutionData": True}])
+        info = run_many(definition, inputs, worker, tmpdir, chooser=chooser, mtype=mtype, child=child, logging=logging)
+        info.logging = logging
         info.schedule = sched if sched == "canonical" else "random(seed=%d)" % sseed
         info.worker_desc = {"seed": worker.seed, "failures": worker.failures, "hangs": worker.hangs, "outcomes": {"%s %s" % k: v for k, v in worker.oracle.items()}}
         info.profile = profile
@@ -324,7 +332,7 @@ def describe(info):
     if getattr(info, "child", None) is not None:
         return {"profile": info.profile, "schedule": info.schedule, "definition": info.definition, "child_definition": info.child, "inputs": info.inputs,
                 "status": info.status, "executions": len(info.arns), "steps": len(info.steps), "type": info.mtype,
-                "task_outcomes": getattr(info, "worker_desc", None), "exception": getattr(info, "exception", None)}
+                "task_outcomes": getattr(info, "worker_desc", None), "exception": getattr(info, "exception", None), "loggingConfiguration": getattr(info, "logging", None)}
     return {"profile": info.profile, "schedule": info.schedule, "definition": info.definition, "inputs": info.inputs,
             "status": info.status, "executions": len(info.arns), "steps": len(info.steps), "type": info.mtype,
-            "task_outcomes": getattr(info, "worker_desc", None), "exception": getattr(info, "exception", None)}
+            "task_outcomes": getattr(info, "worker_desc", None), "exception": getattr(info, "exception", None), "loggingConfiguration": getattr(info, "logging", None)}
